@@ -157,7 +157,9 @@ def run_option(sa, orm, h, pop, node, option, s, rng_pick):
     if option == "wp_where_sub_attr":
         # WHERE on an attribute of one subclass through the with_polymorphic entity:
         # expected = rows of that subclass (and below) whose attribute is not NULL
-        sub = subset[0]
+        sub = next((n for n in subset + subs if n.own_attrs), None)
+        if sub is None:   # only attribute-less (late mapped) subclasses below K
+            return s.scalars(sa.select(orm.with_polymorphic(K, "*"))).all(), None
         wp = orm.with_polymorphic(K, "*")
         attr = sub.own_attrs[0]
         col = getattr(getattr(wp, sub.name), attr)
